@@ -10,6 +10,8 @@ use std::hash::{Hash, Hasher};
 
 #[derive(Clone, Copy, Default, Debug)]
 pub struct Props {
+    /// family EpPlayed: only double pawn pushes are played from the root
+    pub double_push_only: bool,
     /// C02: compare Debug renderings between move_new / move_mut / move_into on every transition
     pub deep: bool,
     pub c01: bool,
